@@ -115,6 +115,15 @@ CHECKS["C07"] = dict(
          "with rounding off only 'all shortest digits or none (removal on)' is required",
     ref="7 C07")
 
+CHECKS["C08"] = dict(
+    technique="TLA+ system model (separators are calculator state; SepIndependent invariant) model-checked by TLC; TLC-enumerated cases of five generators replayed under four separator configurations; random setter / evaluation histories validated by TLC (Trace.tla)",
+    text="TLC checks SepIndependent on every reachable state of the system model (the meaning of every line is the same under all separator configurations) with SetDecimalSep / SetThousandSep "
+         "as actions; the cases TLC enumerates for arithmetic, percentages, money, units and radix conversions (quick: 250 per generator, thorough: all) are rewritten into and evaluated under "
+         "the 4 separator configurations against one expectation, plus plain and grouped literals; random histories on one calculator change the separators through the setters between "
+         "evaluations, carry values through variables and write dates with a comma; validated by TLC.",
+    note="trusted: renderer (literals in the convention in force), projection, TLC; the decimal separator is never empty in the claimed configurations",
+    ref="7 C08")
+
 NOT_YET = {
 }
 
